@@ -1,4 +1,4 @@
-From Coq Require Import QArith ZArith List Arith Bool Lia.
+From Coq Require Import QArith ZArith List Arith Bool Lia Setoid.
 Import ListNotations.
 From RV Require Import Gen.RkTableaux Model.Rk.
 Close Scope Q_scope.
@@ -184,3 +184,51 @@ Proof.
   rewrite (Hw k Hk). rewrite <- (tall_gamma k) by lia.
   apply (order_conditions_all t Ht b p (tall k) Hrow). rewrite tall_order by lia. exact Hp.
 Qed.
+
+(* ---- child order is irrelevant (unbounded, every tableau) ---- *)
+Lemma qsum_eqv x y : Forall2 Qeq x y -> (qsum x == qsum y)%Q.
+Proof.
+  induction 1 as [|p q x y Hpq _ IH]; [reflexivity|].
+  cbn [qsum fold_right]. rewrite !qa_ok. fold (qsum x). fold (qsum y). rewrite Hpq, IH. reflexivity.
+Qed.
+
+Lemma dotq_eqv_r b x y : Forall2 Qeq x y -> (dotq b x == dotq b y)%Q.
+Proof.
+  intros H. unfold dotq. apply qsum_eqv. revert b.
+  induction H as [|p q x y Hpq _ IH]; intros [|b0 b]; cbn [combine map]; try constructor.
+  - cbn [fst snd]. rewrite !qm_ok, Hpq. reflexivity.
+  - apply IH.
+Qed.
+
+Lemma graft_swap_pointwise (f g : list Q -> Q) : forall (l : list (list Q)) (pu : list Q),
+  Forall2 Qeq
+    (map (fun p => qm (fst p) (g (snd p))) (combine (map (fun p => qm (fst p) (f (snd p))) (combine pu l)) l))
+    (map (fun p => qm (fst p) (f (snd p))) (combine (map (fun p => qm (fst p) (g (snd p))) (combine pu l)) l)).
+Proof.
+  induction l as [|r l IH]; intros [|p pu]; cbn [combine map]; try constructor.
+  - cbn [fst snd]. rewrite !qm_ok. ring.
+  - apply IH.
+Qed.
+
+(* the order in which children are grafted onto a root does not matter: elementary weights, density and
+   order of  u[v][w]  and  u[w][v]  coincide, so the Butcher-product terms [bt] quantify over rooted
+   trees as unordered objects and the 23 product terms of order <= 5 cover the 17 rooted trees *)
+Lemma Phi_graft_swap a u v w : Forall2 Qeq (Phi a (Gr (Gr u v) w)) (Phi a (Gr (Gr u w) v)).
+Proof.
+  cbn [Phi].
+  exact (graft_swap_pointwise (fun r => dotq r (Phi a v)) (fun r => dotq r (Phi a w)) a (Phi a u)).
+Qed.
+
+Lemma gamma_graft_swap u v w : (gamma (Gr (Gr u v) w) == gamma (Gr (Gr u w) v))%Q.
+Proof.
+  unfold gamma. cbn [cprod order]. rewrite !qm_ok.
+  rewrite !Nat2Z.inj_add, !inject_Z_plus. ring.
+Qed.
+
+Lemma order_graft_swap u v w : order (Gr (Gr u v) w) = order (Gr (Gr u w) v).
+Proof. cbn [order]. lia. Qed.
+
+Lemma cond_graft_swap a b u v w :
+  (dotq b (Phi a (Gr (Gr u v) w)) * gamma (Gr (Gr u v) w) ==
+   dotq b (Phi a (Gr (Gr u w) v)) * gamma (Gr (Gr u w) v))%Q.
+Proof. rewrite (dotq_eqv_r b _ _ (Phi_graft_swap a u v w)), gamma_graft_swap. reflexivity. Qed.
